@@ -830,8 +830,6 @@ int _vnadata_load_npd(vnadata_internal_t *vdip, FILE *fp, const char *filename)
     }
     if (z0_vector != NULL) {
 	if (vnadata_set_z0_vector(vdp, z0_vector) == -1) {
-	    _vnadata_error(vdip, VNAERR_SYSTEM,
-		    "vnadata_set_z0_vector: %s", strerror(errno));
 	    goto out;
 	}
     } else if (fz0) {
@@ -903,8 +901,6 @@ int _vnadata_load_npd(vnadata_internal_t *vdip, FILE *fp, const char *filename)
 		z0_vector[port] = re + I * im;
 	    }
 	    if (vnadata_set_fz0_vector(vdp, findex, z0_vector) == -1) {
-		_vnadata_error(vdip, VNAERR_SYSTEM,
-			"vnadata_set_fz0_vector: %s", strerror(errno));
 		goto out;
 	    }
 	}
